@@ -111,6 +111,11 @@ impl Texture {
 
         match header.format {
             TextureFormat::B4G4R4A4 => {
+                // the pixel data must actually be there before the image is allocated
+                if src.len() < header.width as usize * header.height as usize * 2 {
+                    return None;
+                }
+
                 dst =
                     vec![
                         0u8;
@@ -138,6 +143,13 @@ impl Texture {
                 }
             }
             TextureFormat::B8G8R8A8 => {
+                // the pixel data must actually be there before the image is allocated
+                if src.len()
+                    < header.width as usize * header.height as usize * header.depth as usize * 4
+                {
+                    return None;
+                }
+
                 dst =
                     vec![
                         0u8;
@@ -165,24 +177,27 @@ impl Texture {
                     &src,
                     header.width as usize,
                     header.height as usize * header.depth as usize,
+                    8,
                     decode_bc1,
-                );
+                )?;
             }
             TextureFormat::BC3 => {
                 dst = Texture::decode(
                     &src,
                     header.width as usize,
                     header.height as usize * header.depth as usize,
+                    16,
                     decode_bc3,
-                );
+                )?;
             }
             TextureFormat::BC5 => {
                 dst = Texture::decode(
                     &src,
                     header.width as usize,
                     header.height as usize * header.depth as usize,
+                    16,
                     decode_bc5,
-                );
+                )?;
             }
         }
 
@@ -199,17 +214,30 @@ impl Texture {
         })
     }
 
-    fn decode(src: &[u8], width: usize, height: usize, decode_func: DecodeFunction) -> Vec<u8> {
-        let mut image: Vec<u32> = vec![0; width * height];
-        decode_func(src, width, height, &mut image).unwrap();
+    fn decode(
+        src: &[u8],
+        width: usize,
+        height: usize,
+        block_size: usize,
+        decode_func: DecodeFunction,
+    ) -> Option<Vec<u8>> {
+        // every 4x4 block of the image must actually be there before the image is allocated
+        if src.len() < width.div_ceil(4) * height.div_ceil(4) * block_size {
+            return None;
+        }
 
-        image
-            .iter()
-            .flat_map(|x| {
-                let v = x.to_le_bytes();
-                [v[2], v[1], v[0], v[3]]
-            })
-            .collect::<Vec<u8>>()
+        let mut image: Vec<u32> = vec![0; width * height];
+        decode_func(src, width, height, &mut image).ok()?;
+
+        Some(
+            image
+                .iter()
+                .flat_map(|x| {
+                    let v = x.to_le_bytes();
+                    [v[2], v[1], v[0], v[3]]
+                })
+                .collect::<Vec<u8>>(),
+        )
     }
 }
 
